@@ -97,6 +97,12 @@ def apply_pre(t, pre):
     the content it denotes is that of the spec (no metadata on the sample axis)"""
     if pre == 'add_empty_md':
         t.add_metadata({str(t.ids()[-1]): {}}, axis='sample')
+    elif pre == 'object_ids':
+        # ids held as object-dtype arrays of str (what a pandas Index or an object array hands the constructor; copy,
+        # transpose and sort_order keep the dtype): the same content
+        from biom import Table
+        t = Table(t.matrix_data, np.array([str(i) for i in t.ids(axis='observation')], dtype=object),
+                  np.array([str(i) for i in t.ids()], dtype=object), t.metadata(axis='observation'), t.metadata(), type=t.type)
     elif pre == 'filter_to_empty_md':
         # the spec's last sample carries the only non-empty metadata and is filtered away in place
         t.filter(list(t.ids())[:-1], axis='sample', inplace=True)
@@ -574,8 +580,24 @@ def gen(rng, tier):
         spec = _spec(rng, max_r=5, max_c=5)
         axis = rng.choice(['observation', 'sample'])
         kind, pairs, strict = _renaming(rng, list(_ids(spec, axis)), list(_ids(spec, 'sample' if axis == 'observation' else 'observation')))
-        yield {'kind': 'update_ids', 'spec': spec, 'axis': axis, 'id_map': pairs, 'strict': strict,
-               'inplace': rng.random() < 0.5, 'rkind': kind}
+        c_ = {'kind': 'update_ids', 'spec': spec, 'axis': axis, 'id_map': pairs, 'strict': strict,
+              'inplace': rng.random() < 0.5, 'rkind': kind}
+        if rng.random() < 0.3:
+            c_['pre'] = 'object_ids'
+        yield c_
+    # 5b. partial renamings to SHORT new ids on tables whose ids are held as object arrays and as str arrays
+    for pre in ('object_ids', None):
+        for axis in ('observation', 'sample'):
+            for inplace in (False, True):
+                spec = {'oids': ['Bacteroides', 'Prevotella', 'Roseburia', 'Blautia'], 'sids': ['gut_sample_1', 'skin_sample_22', 'oral_3'],
+                        'mat': [[1.0, 0.0, 2.0], [0.0, 3.0, 0.0], [4.0, 5.0, 0.0], [0.0, 0.0, 6.0]], 'omd': None, 'smd': None,
+                        'type': None, 'layout': ['csr']}
+                ids_ = spec['oids'] if axis == 'observation' else spec['sids']
+                c_ = {'kind': 'update_ids', 'spec': spec, 'axis': axis, 'id_map': [[ids_[0], 'B1'], [ids_[-1], 'B2']], 'strict': False,
+                      'inplace': inplace, 'rkind': 'partial_short'}
+                if pre:
+                    c_['pre'] = pre
+                yield c_
     # 6. align_to
     for _ in range(45 * n):
         spec = _spec(rng, max_r=4, max_c=4)
